@@ -594,7 +594,12 @@ def check_read(ctx, h: Hist, o, ret, case, final=False):
     want = fresh_conv(fam, h.shadow[o], h.system[o], like=h.objs[o])
     rel = h.relation(o)
     ctx.count(("hist-" if fam.name == "posvel" else f"hist-{fam.name}-") + f"read:{rel}")
-    if not same(got, want):
+    got_c = got
+    if fam.anomalies and fam.other[h.system[o]] == "kepler" and got.shape == want.shape:
+        # Omega, omega, E are angles: an ulp in `u - vega` around 0 makes the wrap return 2 pi instead of 0
+        got_c = got.copy()
+        got_c[..., 3:] = want[..., 3:] + ((got[..., 3:] - want[..., 3:] + PI) % TWO_PI - PI)
+    if not same(got_c, want):
         w = 0
         if got.shape == want.shape and got.ndim == 2:   # show the row that differs most
             with np.errstate(invalid="ignore"):
